@@ -1,29 +1,137 @@
 """setup_cmd: imports, DTD load, small self-consistency tests of harness parts. Builds nothing."""
 import sys
+import threading
+import time
 
 
-def main():
-    import mc
-    from mc import core, findings, minimize, domains
-    import pywbem
-    print('pywbem from', pywbem.__file__)
-    # minimiser
+def test_minimiser_and_specs():
+    from mc import minimize, domains, findings
     got = minimize.minimize(['s', 'xxaxx'], lambda c: isinstance(c, list) and len(c) == 2 and
                             isinstance(c[1], str) and 'a' in c[1])
     assert got == ['s', 'a'], got
-    # spec builder
     p = domains.build(['ipath', 'Foo', [['k', ['i', 'uint8', 5]]], 'a', None])
     assert p.keybindings['K'] == 5 and p.namespace == 'a'
-    # findings matcher
+    assert domains.valid(['ipath', 'Foo', [['k', ['i', 'uint8', 5]]], 'a', None])
+    assert not domains.valid(['ipath', '', [['k', ['i', 'uint8', 5]]], 'a', None])
     e = dict(status='open', signature={'check': 'x', 'what': 'a|b'})
     assert findings.matches(e, {'check': 'x', 'what': 'b'})
     assert not findings.matches(e, {'check': 'x', 'what': 'c'})
     assert not findings.matches(e, {'check': 'x', 'what': 'a', 'extra': '1'})
+    assert not findings.matches(dict(e, status='fixed'), {'check': 'x', 'what': 'a'})
+
+
+def test_dtd():
+    from mc import dtd
+    import pywbem
+    assert dtd.check(pywbem.CIMInstance('Foo', {'p': 'a'}).tocimxmlstr()) is None
+    assert dtd.check('<INSTANCE CLASSNAME="a" X="1"/>')[0] == 'dtd-invalid'
+    assert dtd.check('<INSTANCE CLASSNAME="a">\x01</INSTANCE>')[0] == 'illegal-char'
+    assert dtd.check('<INSTANCE')[0] == 'ill-formed'
+
+
+def test_facade_roundtrip():
+    import warnings
+    warnings.simplefilter('ignore')
+    import pywbem
+    from mc import world, facade, transport
+    c = world.make_conn()
+    f = facade.Facade(world.clone(c))
+    x, _ = transport.connect(f, default_namespace='root/cimv2')
+    a = sorted(str(p) for p in x.EnumerateInstanceNames('TST_Base'))
+    b = sorted(str(p) for p in c.EnumerateInstanceNames('TST_Base'))
+    assert a == b and a, (a, b)
+    try:
+        x.GetClass('TST_Nope')
+        raise AssertionError('expected CIMError')
+    except pywbem.CIMError as exc:
+        assert exc.status_code == pywbem.CIM_ERR_NOT_FOUND
+
+
+def test_scheduler_determinism():
+    from checks import c16_listener_sched as C
+    cfg, bound = C._family('quick', 'F2')
+    S1, o1 = C.run_one(cfg, [])
+    S2, o2 = C.run_one(cfg, S1.choices_taken())
+    assert (o1.log, o1.acks, o1.res) == (o2.log, o2.acks, o2.res)
+    assert S1.choices_taken() == S2.choices_taken()
+    assert not C.judge(cfg, S1, o1), C.judge(cfg, S1, o1)
+
+
+def test_fake_server_conformance():
+    """the three facts the fake threaded HTTP server of mc/listener_mc.py assumes, observed on the
+    real pywbem ThreadedHTTPServer over a loopback socket (free-running, not scheduled)"""
+    import socket
+    from http.server import BaseHTTPRequestHandler
+    from pywbem import _listener
+    entered, release = threading.Event(), threading.Event()
+
+    class H(BaseHTTPRequestHandler):
+        def do_POST(self):
+            entered.set()
+            release.wait(5)
+            self.send_response(200)
+            self.send_header('Content-Length', '0')
+            self.end_headers()
+
+        def log_message(self, *a):
+            pass
+    try:
+        srv = _listener.ThreadedHTTPServer(('127.0.0.1', 0), H)
+    except OSError as exc:
+        print('  fake-server conformance skipped (no loopback socket: %s)' % exc)
+        return
+    port = srv.server_address[1]
+    # fact 1: shutdown() called BEFORE serve_forever() blocks until the loop has run and exited
+    done = []
+    t_sd = threading.Thread(target=lambda: (srv.shutdown(), done.append('shutdown')))
+    t_sd.start()
+    time.sleep(0.2)
+    assert not done, 'shutdown() returned although serve_forever() never ran'
+    t_loop = threading.Thread(target=srv.serve_forever, kwargs={'poll_interval': 0.05})
+    t_loop.start()
+    t_sd.join(5)
+    t_loop.join(5)
+    assert done == ['shutdown'] and not t_loop.is_alive()
+    # fact 2 + 3: requests are handled while the loop runs; server_close() waits for in-flight handlers
+    t_loop = threading.Thread(target=srv.serve_forever, kwargs={'poll_interval': 0.05})
+    t_loop.start()
+    s = socket.create_connection(('127.0.0.1', port), timeout=5)
+    s.sendall(b'POST / HTTP/1.1\r\nContent-Length: 0\r\n\r\n')
+    assert entered.wait(5), 'request not handled while the loop runs'
+    srv.shutdown()
+    t_loop.join(5)
+    closed = []
+    t_close = threading.Thread(target=lambda: (srv.server_close(), closed.append(1)))
+    t_close.start()
+    time.sleep(0.3)
+    assert not closed, 'server_close() returned while a handler was still running'
+    release.set()
+    t_close.join(5)
+    assert closed
+    assert b'200' in s.recv(100)
+    s.close()
+    # after close: connection refused
+    try:
+        socket.create_connection(('127.0.0.1', port), timeout=1).close()
+        raise AssertionError('connect succeeded after server_close()')
+    except OSError:
+        pass
+
+
+def main():
+    import mc  # noqa: binds pywbem to VERIF_REPO
+    import pywbem
+    print('pywbem from', pywbem.__file__)
     try:
         from lxml import etree  # noqa
     except ImportError:
         print('lxml missing')
         return 1
+    for fn in (test_minimiser_and_specs, test_dtd, test_facade_roundtrip, test_scheduler_determinism,
+               test_fake_server_conformance):
+        t = time.time()
+        fn()
+        print('  %s ok (%.1fs)' % (fn.__name__, time.time() - t))
     print('selftest ok')
     return 0
 
